@@ -24,20 +24,20 @@ type Site struct {
 type Status string
 
 const (
-	Discharged Status = "discharged"
-	Violated   Status = "violated"
+	Discharged  Status = "discharged"
+	Violated    Status = "violated"
 	StUndecided Status = "undecided"
 )
 
 // Ob is one proof obligation: a rule applied to one construct.
 type Ob struct {
-	Rule   string `json:"rule"`
-	Key    string `json:"key"`
-	Desc   string `json:"desc"`
-	Status Status `json:"status"`
-	Detail string `json:"detail,omitempty"`
-	Sites  []Site `json:"sites,omitempty"`
-	Evals  int    `json:"constructs_inspected"`
+	Rule   string   `json:"rule"`
+	Key    string   `json:"key"`
+	Desc   string   `json:"desc"`
+	Status Status   `json:"status"`
+	Detail string   `json:"detail,omitempty"`
+	Sites  []Site   `json:"sites,omitempty"`
+	Evals  int      `json:"constructs_inspected"`
 	Facts  []string `json:"facts,omitempty"`
 	known  bool
 }
@@ -83,19 +83,19 @@ func (o *Ob) Fact(format string, args ...any) {
 
 // Ctx is the state of one property check.
 type Ctx struct {
-	Prop  string
-	Tier  string
-	Seed  int64
-	Prog  *Program
-	Obs   []*Ob
-	floor map[string]int
-	start time.Time
-	Notes []string
-	VerifDir string
+	Prop        string
+	Tier        string
+	Seed        int64
+	Prog        *Program
+	Obs         []*Ob
+	floor       map[string]int
+	start       time.Time
+	Notes       []string
+	VerifDir    string
 	Explanation string
 	Assumptions []string
 	TrustedBase []string
-	Census map[string]int
+	Census      map[string]int
 }
 
 // ProcessStart is the time the checker started (includes loading).
